@@ -107,8 +107,9 @@ impl CaoLangTable {
     pub fn pop(&mut self) -> Result<Value, ExecutionErrorPayload> {
         match self.keys.pop() {
             Some(key) => {
-                let res = self.get(&key).copied().unwrap_or(Value::Nil);
-                self.remove(key)?;
+                // the key has already left `keys`, so it has to be taken out of the map here
+                // (`remove` only removes keys it still finds in `keys`)
+                let res = self.map.remove(&key).unwrap_or(Value::Nil);
                 Ok(res)
             }
             None => Ok(Value::Nil),
